@@ -317,6 +317,8 @@ def _json_safe(o: Any) -> Any:
 
 def write_replay(prop: str, v: dict, tier: str) -> str:
     d = os.path.join(VERIF, "replays", "tmp" if os.environ.get("VERIF_NO_EVIDENCE") else "", prop)
+    if os.environ.get("VERIF_REPLAY_DIR"):  # scratch runs of the seed tools: each keeps its replays to itself
+        d = os.path.join(os.environ["VERIF_REPLAY_DIR"], prop)
     os.makedirs(d, exist_ok=True)
     body = {"property": prop, "clause": v["clause"], "key": v["key"], "detail": v["detail"],
             "params_repr": repr(v.get("params")), "choices": v.get("choices"),
